@@ -58,6 +58,9 @@ def _count_form(e):
 def is_len_of(e, kern, flow=None):
     """is `e` the number of entries of `kern`: len(kern), or a count of the entries with a condition plus the count of those
     without it"""
+    cf0 = _count_form(e)
+    if cf0 is not None and cf0 == (kern, frozenset()):
+        return True
     e = flow.subst(e) if flow is not None else e
     cf = _count_form(e)
     if cf is not None:
@@ -72,10 +75,40 @@ def is_len_of(e, kern, flow=None):
     return False
 
 
+def harmless_root_list(f, name, kern):
+    """`name` is a local holding the kernel lines minus lines that cannot start a path: `[x for x in kernel if c]` whose
+    dropped lines (not c) have no outgoing edge in the searched graph. Returns True / False / None (not such a list)."""
+    from . import c05
+    from ..cfg import conjuncts
+    ds = [a for a in C.assigns_to(f.node, name) if isinstance(a, ast.Assign)]
+    if len(ds) != 1 or not isinstance(ds[0].value, ast.ListComp) or len(ds[0].value.generators) != 1:
+        return None
+    lc = ds[0].value
+    g = lc.generators[0]
+    if U(g.iter) != kern or U(lc.elt) != U(g.target) or not g.ifs:
+        return None
+    test = g.ifs[0] if len(g.ifs) == 1 else ast.BoolOp(op=ast.And(), values=list(g.ifs))
+    # a line is dropped when the filter is false: every way of being false must include "no outgoing edge"
+    neg = ast.UnaryOp(op=ast.Not(), operand=test)
+    try:
+        facts = list(conjuncts(neg, True))
+    except Exception:
+        return False
+    return any(c05._unreachability_test(f, e, pol) for e, pol in facts)
+
+
 def _r1(ctx, f):
     ctx.rule("R1", "static partition covers every root exactly once (premises of the partition lemma)")
     kern = f.params()[1]
     flow = C.flow_of(f)
+    # the roots held in a local: the kernel lines without those that have no outgoing edge (they start no path)
+    for sl_ in ast.walk(f.node):
+        if isinstance(sl_, ast.Subscript) and isinstance(sl_.slice, ast.Slice) and isinstance(sl_.value, ast.Name) and sl_.value.id != kern:
+            h_ = harmless_root_list(f, sl_.value.id, kern)
+            if h_ is True:
+                ctx.ok("R1", "roots = `%s`: the kernel lines except lines without outgoing edges (they start no path)" % sl_.value.id, f.where(sl_))
+                kern = sl_.value.id
+                break
     procs = [c for c in ast.walk(f.node) if isinstance(c, ast.Call) and pm.call_name(c).endswith("Process")]
     if len(procs) != 1:
         ctx.broken("R1: worker construction (Process(...)) not found")
